@@ -1,0 +1,6 @@
+//go:build !verif
+
+package store
+
+// verifSite is a hook for verification builds; it does nothing otherwise.
+func verifSite(string) {}
